@@ -1,12 +1,201 @@
 /-
-  Oracle commands for C12 (stub: owns no commands yet).
+  Oracle commands for C12 (crash model of the model store).
+
+    effects <store> <hashes> <chunk> <op>      → the operation's effect list + outcome
+    crash <k> <store> <hashes> <chunk> <op>    → the store after the first k effects
+    restart <store>                            → the store after the start-up sequence
+    rerun <k> <store> <hashes> <chunk> <op>    → outcome of op on restart(crash k) and the readable manifests after it
+
+  <store>  := <n> (<path> <content>)*
+  <path>   := B:<hex64> | T:<k> | P:<hex64> | R:<hex64>:<n> | M:<name>
+  <content>:= raw:<hex|-> | man:<cfgdigest>/<size>[,<digest>/<size>]* | rec:<n>/<off>/<size>/<completed>
+  <hashes> := <n> (<hex> <digest>)*           (the sha256 of every byte string the op may hash)
+  <op>     := upload <digest> <hex> | create <name> <nups> (<digest> <hex>)* <file> <ndatas> <hex>* <cfghex>
+            | copy <src> <dst> | delete <name> | pull <name> <man-content> <nblobs> (<digest> <hex>)*
 -/
 import Oracle.Util
+import OllamaVerif.Model.StoreCrash
 namespace Oracle.C12
-open Oracle
+open Oracle OllamaVerif OllamaVerif.StoreCrash
+
+def parsePath (s : String) : Option Path :=
+  let body := (s.drop 2).toString
+  if s.startsWith "B:" then some (.blob body)
+  else if s.startsWith "P:" then some (.pfile body)
+  else if s.startsWith "M:" then some (.man body)
+  else if s.startsWith "T:" then body.toNat?.map .temp
+  else if s.startsWith "R:" then
+    match body.splitOn ":" with
+    | [d, n] => n.toNat?.map (.part d)
+    | _ => none
+  else none
+
+def parseLayer (s : String) : Option Layer :=
+  match s.splitOn "/" with
+  | [d, n] => n.toNat?.map (fun k => ⟨d, k⟩)
+  | _ => none
+
+def parseMan (body : String) : Option Man :=
+  match (body.splitOn ",").mapM parseLayer with
+  | some (cfg :: layers) => some ⟨layers, cfg⟩
+  | _ => none
+
+def parseContent (s : String) : Option Content :=
+  let body := (s.drop 4).toString
+  if s.startsWith "raw:" then (unhex body).map .raw
+  else if s.startsWith "man:" then (parseMan body).map .man
+  else if s.startsWith "rec:" then
+    match (body.splitOn "/").mapM String.toNat? with
+    | some [n, off, size, completed] => some (.prec ⟨n, off, size, completed⟩)
+    | _ => none
+  else none
+
+def pPath : TP Path := do
+  let t ← tok
+  match parsePath t with
+  | some p => pure p
+  | none => failure
+
+def pContent : TP Content := do
+  let t ← tok
+  match parseContent t with
+  | some c => pure c
+  | none => failure
+
+def pStore : TP Store := listOf (do let p ← pPath; let c ← pContent; pure (p, c))
+
+def pHashes : TP (List (Bytes × Digest)) := listOf (do let b ← hex; let d ← tok; pure (b, d))
+
+def chunksAux (k : Nat) : Nat → Bytes → List Bytes
+  | 0, _ => []
+  | fuel+1, bs => if bs.isEmpty then [] else bs.take k :: chunksAux k fuel (bs.drop k)
+
+def chunksOf (k : Nat) (bs : Bytes) : List Bytes := chunksAux (max k 1) bs.length bs
+
+def insertSorted (x : String) : List String → List String
+  | [] => [x]
+  | y :: ys => if x < y then x :: y :: ys else if x = y then y :: ys else y :: insertSorted x ys
+
+def sortDedup (l : List String) : List String := l.foldr insertSorted []
+
+def mkEnv (hs : List (Bytes × Digest)) (k : Nat) : Env :=
+  { hash := fun bs => match hs.find? (fun e => e.1 == bs) with
+      | some e => e.2
+      | none => "?" ++ hexOrDash bs
+    chunk := chunksOf k
+    ord := sortDedup }
+
+def pBlob : TP (Digest × Bytes) := do let d ← tok; let b ← hex; pure (d, b)
+
+def pOp : TP Op := do
+  let kind ← tok
+  match kind with
+  | "upload" => do let d ← tok; let b ← hex; pure (.upload 0 d b)
+  | "create" => do
+    let n ← tok
+    let ups ← listOf pBlob
+    let file ← tok
+    let datas ← listOf hex
+    let cfg ← hex
+    pure (.create n ups file datas cfg)
+  | "copy" => do let a ← tok; let b ← tok; pure (.copy a b)
+  | "delete" => do let n ← tok; pure (.delete n)
+  | "pull" => do
+    let n ← tok
+    let mc ← pContent
+    let blobs ← listOf pBlob
+    match mc with
+    | .man m => pure (.pull (fun d => (blobs.find? (fun e => e.1 == d)).map (·.2)) n m)
+    | _ => failure
+  | _ => failure
+
+/-! printing -/
+
+def showPathWith (temp : Nat → String) : Path → String
+  | .blob d => "B:" ++ d
+  | .temp k => "T:" ++ temp k
+  | .pfile d => "P:" ++ d
+  | .part d n => "R:" ++ d ++ ":" ++ toString n
+  | .man n => "M:" ++ n
+
+def showLayer (l : Layer) : String := l.digest ++ "/" ++ toString l.size
+
+def showContent : Content → String
+  | .raw bs => "raw:" ++ hexOrDash bs
+  | .man m => "man:" ++ ",".intercalate ((m.config :: m.layers).map showLayer)
+  | .prec r => s!"rec:{r.n}/{r.off}/{r.size}/{r.completed}"
+
+def effPaths : Effect → List Path
+  | .mk p | .touch p | .app p _ | .pw p _ _ | .ftr p _ | .put p _ | .chmod p | .rm p => [p]
+  | .cp a b | .mv a b => [a, b]
+
+/-- temp ids in order of first appearance (the driver numbers the random CreateTemp names so) -/
+def tempOrder (es : List Effect) : List Nat :=
+  (es.flatMap effPaths).foldl (fun acc p => match p with
+    | .temp k => if acc.contains k then acc else acc ++ [k]
+    | _ => acc) []
+
+def showEffect (sp : Path → String) : Effect → String
+  | .mk p => "mk " ++ sp p
+  | .touch p => "touch " ++ sp p
+  | .app p bs => "app " ++ sp p ++ " " ++ hexOrDash bs
+  | .pw p off bs => s!"pw {sp p} {off} {hexOrDash bs}"
+  | .ftr p n => s!"ftr {sp p} {n}"
+  | .put p c => "put " ++ sp p ++ " " ++ showContent c
+  | .cp a b => "cp " ++ sp a ++ " " ++ sp b
+  | .mv a b => "mv " ++ sp a ++ " " ++ sp b
+  | .chmod p => "chmod " ++ sp p
+  | .rm p => "rm " ++ sp p
+
+def showRes (r : Res) : String :=
+  let order := tempOrder r.effs
+  let sp := showPathWith (fun k => toString (order.idxOf k))
+  " ; ".intercalate (r.effs.map (showEffect sp)) ++ (if r.ok then " | ok" else " | fail")
+
+/-- live bindings only (first match wins), sorted, temps anonymous -/
+def showStore (st : Store) : String :=
+  let keys := (st.map (·.1)).eraseDups
+  let items := keys.filterMap (fun p => (get st p).map (fun c => showPathWith (fun _ => "*") p ++ "=" ++ showContent c))
+  " ".intercalate (items.foldr (fun x acc => insertKeepDup x acc) [])
+where
+  insertKeepDup (x : String) : List String → List String
+    | [] => [x]
+    | y :: ys => if x ≤ y then x :: y :: ys else y :: insertKeepDup x ys
+
+def showReadable (st : Store) : String :=
+  let items := (manNames st).eraseDups.filterMap (fun n => (readable st n).map (fun m => n ++ "=" ++ showContent (.man m)))
+  " ".intercalate (sortDedup items)
+
+structure Job where
+  st : Store
+  env : Env
+  op : Op
+
+def pJob : TP Job := do
+  let st ← pStore
+  let hs ← pHashes
+  let k ← nat
+  let op ← pOp
+  pure ⟨st, mkEnv hs k, op⟩
 
 def handle (toks : List String) : Option String :=
   match toks with
+  | "effects" :: rest => do
+    let j ← runTP pJob rest
+    pure (showRes (j.op.exec j.env j.st))
+  | "crash" :: k :: rest => do
+    let k ← k.toNat?
+    let j ← runTP pJob rest
+    pure (showStore (run ((j.op.exec j.env j.st).effs.take k) j.st))
+  | "restart" :: rest => do
+    let st ← runTP pStore rest
+    pure (showStore (restart st))
+  | "rerun" :: k :: rest => do
+    let k ← k.toNat?
+    let j ← runTP pJob rest
+    let st1 := restart (run ((j.op.exec j.env j.st).effs.take k) j.st)
+    let r := j.op.exec j.env st1
+    pure ((if r.ok then "ok " else "fail ") ++ showReadable (run r.effs st1))
   | _ => none
 
 end Oracle.C12
